@@ -1,13 +1,18 @@
 -------------------------- MODULE ReportTreeTrace --------------------------
 (* Code -> spec direction for C20 (and the judge of the spec -> code direction).
 
-   A case is one real write: the tree (parent vector in pre-order numbering,
-   title facts, results per section) and the projection of the disk after
+   A case is one real write -- any write of a usage history of the formatter
+   and of the formatted report (the same FormattedRst written to several
+   directories or twice into one, one Rst formatting several reports, A-B-A):
+   the tree that was written (parent vector in pre-order numbering, title
+   facts, results per section) and the projection of the directory after
    Rst(...).format_report(...).write(dir): whether the call raised (rejected),
    whether anything exists in the target directory, the names that appeared
    next to it (outside), every *.rst page with its path, header titles,
-   section-text tokens, result anchors, toctree entries and image targets, and
-   the figure files present.  Every clause of ReportTree.tla is evaluated on
+   section-text tokens, the results that appear on it (field "anchors": a
+   result is recognised by its own description and by any explicit target
+   carrying its fingerprint, whatever the label is called), toctree entries
+   and image targets, and the figure files present.  Every clause of ReportTree.tla is evaluated on
    every case; the names of the false clauses are collected with the case id. *)
 EXTENDS Integers, Sequences, FiniteSets, TLC, Json, IOUtils
 
